@@ -39,7 +39,10 @@ CLAIM = ('Necessary structural conditions of WHATWG conformance, each over all c
          "mode switch is one the standard's steps for that mode and token make, and every switch the standard "
          "requires is reachable from that token's handler; backward scans of the formatting list stop at "
          'markers; a stale formatting element is removed from both lists; the foreign-content breakout pops to '
-         'an HTML element or integration point; a discarded delegation result cannot lose a reprocess request.')
+         'an HTML element or integration point; a discarded delegation result cannot lose a reprocess request. '
+         'Foster parenting is applied exactly when it is enabled and the current node is a table, tbody, '
+         "tfoot, thead or tr; the adoption agency's outer loop is bounded by 8 and its inner loop is not "
+         'bounded by a counter (known finding).')
 NOT_DECIDED = ('the tree itself: adoption agency, reconstruction of formatting elements, foster parenting positions, '
                'the conditions under which a mode switch is taken (only its possible and required targets are '
                'decided), quirks-mode effects.')
@@ -1339,6 +1342,9 @@ def thorough(ctx):
 def mutants():
     from ..selftest import TextMutant as T
     return [
+        T("foster-any-node", "treebuilders/base.py", "        if (not self.insertFromTable or (self.insertFromTable and\n                                         self.openElements[-1].name\n                                         not in tableInsertModeElements)):", "        if not self.insertFromTable:", "C01.14"),
+        T("foster-element-any-node", "treebuilders/base.py", "        if self.openElements[-1].name not in tableInsertModeElements:\n            return self.insertElementNormal(token)", "        if False:\n            return self.insertElementNormal(token)", "C01.14"),
+        T("adoption-outer-loop-16", "html5parser.py", "while outerLoopCounter < 8:", "while outerLoopCounter < 16:", "C01.15"),
         T("afe-scan-crosses-marker", "treebuilders/base.py",
           "            if item == Marker:\n                break", "            if item == Marker:\n                continue", "C01.13"),
         T("clear-afe-ignores-marker", "treebuilders/base.py",
